@@ -566,6 +566,11 @@ func (in *inst) cursorOp(op string) {
 	if in.quiet {
 		return
 	}
+	// moving a cursor that has deleted through Cursor.Delete must not change what the transaction
+	// sees (the deleted key stays deleted, nothing else disappears)
+	if strings.Contains(prev, "D") && (op == "cN" || op == "cP") {
+		in.fullRead(in.tx, &tm.w, tm.writable, in.nblocks+tm.blocks, phaseOf(tm.writable, "after-moving-a-cursor-that-deleted"))
+	}
 	// Signature of a cursor failure. A walk starts with an absolute positioning (First and Seek
 	// position for forward travel, Last for backward travel); it is "mixed" as soon as one move
 	// goes against that direction. Three symptom classes are separated from the generic one:
@@ -603,8 +608,11 @@ func (in *inst) cursorOp(op string) {
 	switch {
 	case start == "seek" && profile != "mixed-direction" && wantB && !internal(want):
 		sig = "cursor|seek-walk|nested-bucket-expected|" + kind
-	case profile == "mixed-direction" && kind == "with-pending":
-		sig = "cursor|mixed-direction-walk|with-pending"
+	case profile == "mixed-direction":
+		// (one defect class whatever the starting operation: the iterator that is not current is
+		// left on the wrong side; "committed-only" = committed data split between leveldb and the
+		// write cache, the same merge one layer below)
+		sig = "cursor|mixed-direction-walk|" + kind
 	case stale && profile != "at-start" && profile != "mixed-direction":
 		sig = fmt.Sprintf("cursor|%s-walk|%s|tx-modified-since-cursor-creation", start, profile)
 	default:
